@@ -310,6 +310,16 @@ func obfuscateByteSlice(or *obfRand, isPointer bool, data []byte) *ast.CallExpr 
 	block := obf.obfuscate(or.rnd, data, extKeys)
 	params, args := extKeysToParams(or, extKeys)
 
+	// A []byte composite literal has no spare capacity, so appending to it always
+	// allocates. The obfuscators may leave some, and then two appends to the same
+	// literal would write to the same memory.
+	block.List = append(block.List, ah.AssignStmt(ast.NewIdent("data"), &ast.SliceExpr{
+		X:      ast.NewIdent("data"),
+		High:   ah.IntLit(len(data)),
+		Max:    ah.IntLit(len(data)),
+		Slice3: true,
+	}))
+
 	if isPointer {
 		block.List = append(block.List, ah.ReturnStmt(
 			ah.UnaryExpr(token.AND, ast.NewIdent("data")),
